@@ -118,3 +118,130 @@ def link_implies_page(ctx):
         r, m = ctx.solve(label, base + excl + [z3.Not(page)], 60)
         if r == "sat":
             ctx.report(label, _model_to_w(m, sh, st), replay_links)
+
+
+# ---------------------------------------------------------------------------------------
+# O2: an entity whose URL is a page of its own is among the entities Documentation creates pages for
+# ---------------------------------------------------------------------------------------
+import ast as _ast
+import inspect as _inspect
+import textwrap as _textwrap
+
+from fv import sym as _sym, choice as _choice, parserh as _parserh
+from fv.choice import CV as _CV
+
+
+def page_lists():
+    """names of the project lists Documentation.__init__ creates entity pages from (read from its AST)"""
+    import ford.output as out
+
+    tree = _ast.parse(_textwrap.dedent(_inspect.getsource(out.Documentation.__init__)))
+    names = []
+    for n in _ast.walk(tree):
+        if isinstance(n, _ast.Tuple) and len(n.elts) == 2 and isinstance(n.elts[0], _ast.Attribute) \
+                and isinstance(n.elts[0].value, _ast.Name) and n.elts[0].value.id == "project" and isinstance(n.elts[1], _ast.Name):
+            names.append(n.elts[0].attr)
+    return names
+
+
+NL = "namelist /cfg/ a"
+HOSTS = ["module-procedure", "external-subroutine", "external-function", "program", "program-internal"]
+TYPE_HOSTS = ["module", "program", "external-subroutine"]
+
+
+def _page_files(nl_host, ty_host):
+    def at(h_, stmt):
+        return _choice.apply(lambda x: stmt if x == h_ else "continue", nl_host)
+
+    def ty(h_):
+        return [_choice.apply(lambda x: "type tt" if x == h_ else "integer :: dummy_a", ty_host), "integer :: c",
+                _choice.apply(lambda x: "end type tt" if x == h_ else "integer :: dummy_b", ty_host)]
+    return {
+        "m.f90": ["module mm"] + ty("module") + ["contains", "subroutine mproc()", "integer :: a", at("module-procedure", NL), "end subroutine mproc",
+                  "end module mm"],
+        "e.f90": ["subroutine esub()"] + ty("external-subroutine") + ["integer :: a", at("external-subroutine", NL), "end subroutine esub",
+                  "function efun()", "integer :: a, efun", at("external-function", NL), "end function efun"],
+        "p.f90": ["program pp"] + ty("program") + ["integer :: a", at("program", NL), "contains", "subroutine pint()", "integer :: a",
+                  at("program-internal", NL), "end subroutine pint", "end program pp"],
+    }
+
+
+def _pages_observe(p, lists):
+    """[(description, url)] of entities whose URL is a page of their own but which are in none of the page lists"""
+    have = []
+    for l in lists:
+        v = getattr(p, l, None)
+        if v is not None:
+            have.extend(list(v))
+    missing = []
+
+    def walk(e, seen):
+        if any(e is s_ for s_ in seen):
+            return
+        seen.append(e)
+        u = e.get_url() if hasattr(e, "get_url") else None
+        if u is not None and not isinstance(e, type(p.files[0])):
+            missing.append((type(e).__name__, getattr(e, "name", "?"), u, any(e is h_ for h_ in have)))
+        for l in ("modules", "submodules", "programs", "blockdata", "subroutines", "functions", "types", "interfaces", "absinterfaces",
+                  "namelists", "modprocedures"):
+            for x in getattr(e, l, []) or []:
+                if hasattr(x, "get_url"):
+                    walk(x, seen)
+    seen = []
+    for f in p.files:
+        walk(f, seen)
+    return missing
+
+
+def replay_pages(w):
+    import io, contextlib
+    lists = page_lists()
+    with contextlib.redirect_stdout(io.StringIO()), contextlib.redirect_stderr(io.StringIO()):
+        p = _parserh.project_concrete(_page_files(w["nl_host"], w["ty_host"]), proc_internals=True, display=["public", "private", "protected"])
+    bad = [(c, n, u) for c, n, u, ok in _pages_observe(p, lists) if "#" not in u and not ok]
+    return bool(bad), {"files": _page_files(w["nl_host"], w["ty_host"]), "entities_with_a_page_url_but_no_page": bad}
+
+
+@obligation("C09", "O2.page-url-implies-page", engine="SX(CV)", timeout=900)
+def page_url_implies_page(ctx):
+    """symbolic project (a namelist and a derived type placed in every kind of host scope): every entity whose get_url() is a page of its
+    own is in one of the project lists from which Documentation creates pages"""
+    import io, contextlib
+    import ford.output as out
+    import ford.sourceform as sf
+    import ford.fortran_project as fp
+
+    lists = page_lists()
+    ctx.encode_fn(out.Documentation.__init__)
+    ctx.encode_fn(fp.Project._fortran_file)
+    ctx.encode_fn(fp.Project.correlate)
+    ctx.encode_fn(sf.FortranBase.get_url)
+    if len(lists) < 8:
+        ctx.inconclusive.append(f"only {len(lists)} page lists recovered from Documentation.__init__")
+    ctx.bounds.update({"namelist hosts": HOSTS, "type hosts": TYPE_HOSTS, "page lists": lists})
+
+    def h(E):
+        nh = _CV.choice(E, "nl_host", HOSTS)
+        th = _CV.choice(E, "ty_host", TYPE_HOSTS)
+        E.e.snapshot = lambda m: {"nl_host": _choice.value_in_model(m, nh), "ty_host": _choice.value_in_model(m, th)}
+        with contextlib.redirect_stdout(io.StringIO()), contextlib.redirect_stderr(io.StringIO()):
+            obs = _parserh.project(_page_files(nh, th), post=lambda p: _pages_observe(p, lists), proc_internals=True,
+                                   display=["public", "private", "protected"])
+        E.reachable("observed")
+        for cls, name, url, ok in obs:
+            own_page = _choice.apply(lambda u: "#" not in str(u), url)
+            E.require(_choice.apply(lambda o, k: (not o) or k, own_page, ok), f"{cls} has a page URL but no page is created for it")
+
+    E = _sym.Engine(ctx, max_paths=5000, incremental=True)
+    found = E.explore(h)
+    seen = set()
+    for (label, m, pc), snap in zip(found, E.snapshots):
+        if label in seen:
+            continue
+        seen.add(label)
+        ctx.report(label, snap, replay_pages)
+    if E.reached.get("observed"):
+        ctx.twins += 1
+    else:
+        ctx.inconclusive.append("vacuity: nothing observed")
+    ctx.sample({"paths": E.paths})
